@@ -265,7 +265,7 @@ func (w *World) NewNodeFor(g int, inst *sim.Instance, created time.Time) *v1.Nod
 // PodSpec is the reified description of a pod to create.
 type PodSpec struct {
 	Group   int    `json:"g"`              // group it selects (-1: none)
-	Via     string `json:"via"`            // "selector" | "affinity" | "none"
+	Via     string `json:"via"`            // "selector" | "affinity" | "affinityOr" | "affinityAnd" | "none"
 	CPU     int64  `json:"cpu"`            // millicores (single container)
 	Mem     int64  `json:"mem"`            // bytes
 	Node    string `json:"node,omitempty"` // bound node ("" = pending)
@@ -285,6 +285,16 @@ type PodSpec struct {
 	// Age: the pod was created this many seconds ago (it may predate the node it is bound to:
 	// pods wait for the scale-up that brings their node)
 	Age int64 `json:"age,omitempty"`
+}
+
+// Dur parses a configured duration for the oracle side, independently of escalator's own
+// accessors (which are code under test): a value that does not parse counts as 0.
+func Dur(s string) time.Duration {
+	d, err := time.ParseDuration(s)
+	if err != nil {
+		return 0
+	}
+	return d
 }
 
 // NewPod materialises a PodSpec.
@@ -326,6 +336,18 @@ func (w *World) NewPod(s PodSpec) *v1.Pod {
 		case "affinity":
 			p.Spec.Affinity = &v1.Affinity{NodeAffinity: &v1.NodeAffinity{RequiredDuringSchedulingIgnoredDuringExecution: &v1.NodeSelector{
 				NodeSelectorTerms: []v1.NodeSelectorTerm{{MatchExpressions: []v1.NodeSelectorRequirement{{Key: o.LabelKey, Operator: v1.NodeSelectorOpIn, Values: []string{"zzz", o.LabelValue}}}}}}}}
+		case "affinityOr": // one term per pool; this group's pool is not listed first
+			in := func(vals ...string) v1.NodeSelectorTerm {
+				return v1.NodeSelectorTerm{MatchExpressions: []v1.NodeSelectorRequirement{{Key: o.LabelKey, Operator: v1.NodeSelectorOpIn, Values: vals}}}
+			}
+			p.Spec.Affinity = &v1.Affinity{NodeAffinity: &v1.NodeAffinity{RequiredDuringSchedulingIgnoredDuringExecution: &v1.NodeSelector{
+				NodeSelectorTerms: []v1.NodeSelectorTerm{in(o.LabelValue + "0"), in("zzz", o.LabelValue)}}}}
+		case "affinityAnd": // several expressions in one term; the one naming this group's value is the last
+			p.Spec.Affinity = &v1.Affinity{NodeAffinity: &v1.NodeAffinity{RequiredDuringSchedulingIgnoredDuringExecution: &v1.NodeSelector{
+				NodeSelectorTerms: []v1.NodeSelectorTerm{{MatchExpressions: []v1.NodeSelectorRequirement{
+					{Key: "kubernetes.io/arch", Operator: v1.NodeSelectorOpIn, Values: []string{"amd64"}},
+					{Key: o.LabelKey, Operator: v1.NodeSelectorOpIn, Values: []string{"zzz"}},
+					{Key: o.LabelKey, Operator: v1.NodeSelectorOpIn, Values: []string{o.LabelValue}}}}}}}}
 		}
 	}
 	if s.Cross != "" {
